@@ -147,7 +147,29 @@ static int op_sqrtrem(int argc, tok_t *a, out_t *o) {
   return 0;
 }
 
+/* alias_rootrem <root> <rem> <u> <nth> v0..v3 (root != rem) */
+static int op_rootrem(int argc, tok_t *a, out_t *o) {
+  if (argc != 8) return -1;
+  for (int i = 0; i < 8; i++) if (a[i].kind != T_NUM) return -1;
+  long ix[3];
+  for (int i = 0; i < 3; i++) { ix[i] = tok_long(&a[i]); if (ix[i] < 0 || ix[i] > 3) return -1; }
+  if (ix[0] == ix[1] || a[3].neg || a[3].n > 1) return -1;
+  unsigned long nth = tok_ulong(&a[3]);
+  mpz_t v[4]; mp_limb_t *p0[4];
+  for (int i = 0; i < 4; i++) { mpz_init(v[i]); tok_mpz(v[i], &a[4 + i]); p0[i] = v[i]->_mp_d; }
+  int neg_even = v[ix[2]]->_mp_size < 0 && (nth & 1) == 0;
+  int e = GUARD(mpz_rootrem(v[ix[0]], v[ix[1]], v[ix[2]], nth));
+  if (e) out_err(o, neg_even ? "sqrtneg" : "div0");    /* rootrem.c:38-44: the even root of a negative is tested first */
+  else
+    for (int i = 0; i < 4; i++) {
+      out_mpz(o, v[i]); out_long(o, v[i]->_mp_alloc); out_long(o, v[i]->_mp_d != p0[i]);
+    }
+  for (int i = 0; i < 4; i++) mpz_clear(v[i]);
+  return 0;
+}
+
 const opdef_t ops_alias[] = {
+  {"alias_rootrem", op_rootrem},
   {"alias_sqrtrem", op_sqrtrem},
   {"alias_tdiv_qr", op_tdiv_qr}, {"alias_fdiv_qr", op_fdiv_qr}, {"alias_cdiv_qr", op_cdiv_qr},
   {"alias_tdiv_q", op_tdiv_q}, {"alias_tdiv_r", op_tdiv_r}, {"alias_fdiv_q", op_fdiv_q}, {"alias_fdiv_r", op_fdiv_r},
